@@ -11,15 +11,19 @@ return `Option Item`: `none` = `to_cbor()` raises (`validate()` refuses a field,
 `socket.inet_pton` refuse the stored text).
 
 What the code does, and the model keeps:
-* `SingleHostAddr` STORES TEXT: the constructor turns `bytes` into text (`socket.inet_ntoa`, `socket.inet_ntop`), keeps a
-  `str` as given and turns anything else into `None`; `to_primitive` turns the text back into bytes (`socket.inet_aton`,
-  `socket.inet_pton`).  The four libc functions are modelled here (`ntoa`, `aton`, `ntop6`, `pton6`; glibc 2.36, the
-  platform the harness runs on; ASCII texts are byte lists).
+* `SingleHostAddr` STORES TEXT, in canonical form (since 68e1e96): the constructor first turns its argument into bytes
+  (`ipv4_to_bytes`: a `str` through `socket.inet_aton` / `inet_pton` — a refused text raises there —, `bytes` as they are,
+  anything else `None`) and stores the text form of those bytes (`socket.inet_ntoa` / `inet_ntop`); `to_primitive` turns the
+  stored text back into bytes.  `normRelay` is that constructor applied to the stored fields; every constructed (and every
+  decoded) relay is a fixed point of it; an attribute assigned after construction is not normalised.  The four libc
+  functions are modelled here (`ntoa`, `aton`, `ntop6`, `pton6`; glibc 2.36, the platform the harness runs on; ASCII texts
+  are byte lists).
 * the hand-written `from_primitive` of the three relay classes restores no field type: `port` and `dns_name` hold
   whatever the wire held (`Port.junk`, `Name.junk`); `validate()` (run by `to_cbor`) refuses such an object later.
 * `PoolRegistration.to_primitive` flattens `[3, *pool_params]`; `from_primitive` accepts the flat form and `[3, [...]]`.
-* `PoolParams.id` (an optional trailing `PoolId`) is written as a tenth item when set; `relays=None` (the default) is
-  written as `null`.
+* `PoolParams.id` (an optional trailing `PoolId`) is written as a tenth item when set; `PoolParams.__post_init__` (since
+  daec0e4) turns `relays=None` (the default) into `[]` (`postInit`); a `relays` attribute set to `None` afterwards is
+  still written as `null`.
 * `fractions.Fraction` normalises in its constructor, so does cbor2's decoder of tag 30 (`Fraction(*value)`).
 
 Deviations (not reachable from an object the library serializes; the differential run does not generate them): Python
@@ -283,23 +287,42 @@ inductive IpArg where
   | bytes (b : Bytes)
   deriving Repr
 
-/-- `SingleHostAddr.bytes_to_ipv4`; outer `none` = `OSError` -/
-def bytesToIpv4 : IpArg → Option (Option Bytes)
+/-- `SingleHostAddr.ipv4_to_bytes` / `ipv6_to_bytes` of a constructor argument (`conv` = `inet_aton` / `inet_pton`); outer
+`none` = `OSError` / `ValueError` (the text is refused) -/
+def argToBytes (conv : Bytes → Option Bytes) : IpArg → Option (Option Bytes)
   | .none => some Option.none
-  | .text t => some (some t)
-  | .bytes b => (match ntoa b with | some t => some (some t) | Option.none => Option.none)
+  | .text t => (match conv t with | some b => some (some b) | Option.none => Option.none)
+  | .bytes b => some (some b)
 
-/-- `SingleHostAddr.bytes_to_ipv6`; outer `none` = `ValueError` -/
-def bytesToIpv6 : IpArg → Option (Option Bytes)
-  | .none => some Option.none
-  | .text t => some (some t)
-  | .bytes b => (match ntop6 b with | some t => some (some t) | Option.none => Option.none)
+/-- `SingleHostAddr.bytes_to_ipv4` / `bytes_to_ipv6` of what `…_to_bytes` returned (`shw` = `inet_ntoa` / `inet_ntop`); outer
+`none` = `OSError` / `ValueError` (wrong length) -/
+def bytesToText (shw : Bytes → Option Bytes) : Option Bytes → Option (Option Bytes)
+  | Option.none => some Option.none
+  | some b => (match shw b with | some t => some (some t) | Option.none => Option.none)
+
+/-- `self.bytes_to_ipv4(self.ipv4_to_bytes(arg))`: the text stored for a constructor argument -/
+def ctorIp (conv shw : Bytes → Option Bytes) (a : IpArg) : Option (Option Bytes) :=
+  match argToBytes conv a with
+  | some ob => bytesToText shw ob
+  | Option.none => Option.none
 
 /-- `SingleHostAddr.__init__(port, ipv4, ipv6)`; `none` = the constructor raises -/
 def mkAddr (port : Port) (ipv4 ipv6 : IpArg) : Option Relay :=
-  match bytesToIpv4 ipv4, bytesToIpv6 ipv6 with
+  match ctorIp aton ntoa ipv4, ctorIp pton6 ntop6 ipv6 with
   | some a, some b => some (.addr port a b)
   | _, _ => Option.none
+
+/-- a stored text as a constructor argument -/
+def textArg : Option Bytes → IpArg
+  | some t => .text t
+  | Option.none => .none
+
+/-- the constructor applied to the fields of a relay: `SingleHostAddr(r.port, r.ipv4, r.ipv6)`; the other two classes
+store what they are given (`__post_init__` only sets `_CODE`).  Every constructed relay — and every decoded one, the
+decoders go through the constructors — is a fixed point: `normRelay r = some r`. -/
+def normRelay : Relay → Option Relay
+  | .addr p a b => mkAddr p (textArg a) (textArg b)
+  | r => some r
 
 def null : Item := .simple 22
 
@@ -612,7 +635,7 @@ def encRegistration (p : PoolParams) : Option Item := (itemsParams p).map fun is
 /-- the keyword arguments collected by `ArrayCBORSerializable.from_primitive` for `PoolParams`: the items are zipped with
 the ten constructor fields and restored in order (the first failure is raised); missing trailing fields take their
 defaults (`relays`, `pool_metadata`, `id`: `None`), a missing required one is a `TypeError` -/
-def decParamsItems (xs : List Item) : Res PoolParams :=
+def decParamsFields (xs : List Item) : Res PoolParams :=
   match xs with
   | [] => .crash
   | o :: xs1 =>
@@ -658,6 +681,19 @@ def decParamsItems (xs : List Item) : Res PoolParams :=
                             | pid :: _ =>
                               Res.bind (decOptPoolId pid) fun id =>
                               .ok ⟨operator, vrf, pledge, cost, margin, rewardAccount, owners, relays, metadata, id⟩))
+
+/-- `PoolParams.__post_init__`: `if self.relays is None: self.relays = []` -/
+def postInit (p : PoolParams) : PoolParams :=
+  match p.relays with
+  | Option.none => { p with relays := some [] }
+  | some _ => p
+
+/-- … followed by the constructor call `cls(*restored_vals)` -/
+def decParamsItems (xs : List Item) : Res PoolParams :=
+  match decParamsFields xs with
+  | .ok p => .ok (postInit p)
+  | .deser => .deser
+  | .crash => .crash
 
 /-- `PoolParams.from_primitive`: `@limit_primitive_type(list, tuple, IndefiniteList)` -/
 def decParams (i : Item) : Res PoolParams :=
@@ -756,6 +792,16 @@ def relayOk : Relay → Bool
   | .name p d => portOk p && nameOk d
   | .multi d => nameOk d
 
+/-- the fields `validate()` checks (`port: Optional[int]`, `dns_name: Optional[str]`); the constructors do not -/
+def relayTyped : Relay → Bool
+  | .addr p _ _ => portOk p
+  | .name p d => portOk p && nameOk d
+  | .multi d => nameOk d
+
+def relaysTyped : Option (List Relay) → Bool
+  | some rs => rs.all relayTyped
+  | Option.none => true
+
 def nodupB : List Bytes → Bool
   | [] => true
   | x :: xs => !xs.contains x && nodupB xs
@@ -769,7 +815,7 @@ def fracOk (q : Frac) : Bool := decide (0 < q.d) && Int.gcd q.n q.d == 1
 
 def relaysOk : Option (List Relay) → Bool
   | some rs => rs.all relayOk
-  | Option.none => true
+  | Option.none => false                     -- a constructed `PoolParams` holds a list (`postInit`)
 
 def metadataOk : Option Metadata → Bool
   | some m => m.hash.length == 32
@@ -785,7 +831,8 @@ def paramsOkW (p : PoolParams) : Bool :=
   p.operator.length == 28 && p.vrf.length == 32 && fracOk p.margin && p.rewardAccount.length == 29 && ownersOk p.owners &&
   metadataOk p.metadata && idOk p.id
 
-/-- … and every relay well typed with its addresses in canonical text -/
+/-- … and `relays` a list of relays, every one well typed with its addresses in canonical text: the executable form of
+"constructed from constructed relays" (`Proofs/Pool.lean`: `paramsOk_iff`) -/
 def paramsOk (p : PoolParams) : Bool := paramsOkW p && relaysOk p.relays
 
 def retirementOk (r : Retirement) : Bool := r.poolKeyHash.length == 28
